@@ -45,6 +45,25 @@ def edges_term(s):
     return '[' + '; '.join(out) + ']'
 
 
+def yaml_term(text):
+    """the model's GY observation (one line, newline written '|') -> a Coq term of type list Yaml.yline"""
+    fixed = {'graph:': 'YGraph', '  nodes:': 'YNodes false', '  nodes: []': 'YNodes true', '  node_holes: []': 'YHoles',
+             '  edge_property: directed': 'YProp', '  edges:': 'YEdges false', '  edges: []': 'YEdges true',
+             '    - Logic': 'YKind Logic', '    - Contains': 'YKind Contains', '    - Data': 'YKind Data'}
+    out = []
+    lines = text.split('|')
+    assert lines[-1] == ''
+    for ln in lines[:-1]:
+        if ln in fixed:
+            out.append(fixed[ln])
+            continue
+        m = re.match(r'^(  - - |    - |  - )(\d+)$', ln)
+        if not m:
+            raise ValueError(ln)
+        out.append('%s %d' % ({'  - - ': 'YSrc', '    - ': 'YDst', '  - ': 'YNode'}[m.group(1)], int(m.group(2))))
+    return '[' + '; '.join(out) + ']'
+
+
 def kv(tokens, key, default):
     for t in tokens:
         if t.startswith(key + '='):
@@ -202,7 +221,7 @@ def generate(cases, mobs, order, kind, want=40):
         sw = max(1, want // 2)
         ids = ids + scand[::max(1, len(scand) // sw)][:sw]
     src = ['(* generated by lib/kernel_sample.py: observations printed by the extracted model, re-proved in the kernel *)',
-           'From FG Require Import Dag Builder Sched.', 'Import ListNotations.']
+           'From FG Require Import Dag Builder Sched Yaml.', 'Import ListNotations.']
     if kind == 'runtime':
         src.append(S_PRELUDE)
     for cid in ids:
@@ -213,6 +232,9 @@ def generate(cases, mobs, order, kind, want=40):
                        % (cid, ops_term(c['parts'][0]), scfg_term(c['parts'][1].split()), sevents_term(evs),
                           spolls_term(evs, o), trace_term(o['T'])))
         elif kind == 'builder':
+            if 'GY' in o and len(o['GY']) < 4000:
+                src.append('Example y_%s : match build (builder_run %s) with BOk G _ _ => option_map gi_yaml (gi_from_graph G fid) = Some %s | _ => False end.\nProof. vm_compute. reflexivity. Qed.'
+                           % (cid, ops_term(c['parts'][0]), yaml_term(o['GY'])))
             src.append('Example b_%s : match build (builder_run %s) with BOk G _ _ => (fg_edges G, fg_ranks G) = (%s, %s) | _ => False end.\nProof. vm_compute. reflexivity. Qed.'
                        % (cid, ops_term(c['parts'][0]), edges_term(o.get('E', '-')), _nat_list(_ints(o.get('K', '-'), ' '))))
         else:
